@@ -417,7 +417,7 @@ def main():
         for g in geoms:
             groups.setdefault((h.crate, g, tuple(h.extra_features), h.module if h.module.startswith("bin_") else ""), []).append(h)
 
-    timeout_s = int(os.environ.get("VERIF_TIMEOUT", "900" if args.tier == "quick" else "7200"))
+    timeout_s = int(os.environ.get("VERIF_TIMEOUT", "1800" if args.tier == "quick" else "7200"))
     findings = load_findings()
     watch = MemWatch()
     watch.start()
